@@ -7,6 +7,7 @@ operand descriptors ({"slot": i} / {"text": s}) to live values.
 
 Nothing here judges a result; see models.py / oracles.py.
 """
+import copy
 import itertools
 import re
 
@@ -184,7 +185,21 @@ def perform(op, v, ip, res):
             kw['end'] = op['b']
         return _method(v, 'clip', ip, **kw)
     if k == 'iter':
-        return list(v)
+        if not op.get('mutate'):
+            return list(v)
+        # consume step by step; each yielded item is recorded as it is handed out (exact clone) and
+        # then modified in place, as in the "style each character in a loop" idiom
+        out = []
+        for n, item in enumerate(v):
+            out.append(copy.deepcopy(item))
+            if isinstance(item, AnsiString):
+                if (n + op['mutate']) % 3 == 0:
+                    item.apply_formatting('[1')
+                elif (n + op['mutate']) % 3 == 1:
+                    item += 'Z'
+                else:
+                    item.clear_formatting()
+        return out
 
     if k == 'add':
         return v + res(op['o'])
